@@ -32,7 +32,9 @@ Proof.
     apply IH; auto. now rewrite <- !N.add_assoc.
 Qed.
 
-Definition unarmed (s : state) : nat := length (filter negb (rearmed_v s)).
+(* what the re-arm counters still allow: sum over the replicas of (maxRearm - rearmed), maxRearm = replicas - 1 *)
+Fixpoint slack (L : nat) (v : list nat) : nat := match v with [] => 0 | x :: r => (L - x) + slack L r end.
+Definition unarmed (c : cfg) (s : state) : nat := slack (length (c_reps c) - 1) (rearmed_v s).
 Definition aux (s : state) := (rearmed_v s, bo_total s, bo_excl s).
 Definition adv (c : cfg) (s s' : state) (evs : list event) : Prop :=
   bo_total s' = bo_total s + tot evs /\ bo_excl s' = bo_excl s + exc evs /\ bo_ok c (bo_total s) (bo_excl s) evs.
@@ -145,22 +147,20 @@ Proof.
   - apply no_candidate_bo. exact E1.
 Qed.
 
-Lemma unarmed_upd k (v : list bool) : nth k v true = false ->
-  (length (filter negb (upd k (fun _ => true) v)) + 1 = length (filter negb v))%nat.
+Lemma slack_upd L k (v : list nat) : (nth k v L < L -> slack L (upd k S v) + 1 = slack L v)%nat.
 Proof.
-  revert k; induction v as [|b v IH]; intros [|k] H; cbn [nth upd filter] in *; try discriminate.
-  - subst b. cbn. lia.
-  - specialize (IH k H). destruct b; cbn [negb length]; lia.
+  revert k; induction v as [|x v IH]; intros [|k] H; cbn [nth upd slack] in *; try lia.
+  specialize (IH k H). lia.
 Qed.
 
-Definition hres_bo (once : bool) (c : cfg) (s : state) (h : hres) : Prop :=
+Definition hres_bo (fixed : bool) (c : cfg) (s : state) (h : hres) : Prop :=
   match h with
-  | HRetry s' evs => adv c s s' evs /\ (once = true -> (unarmed s' + n_rearms evs <= unarmed s)%nat)
+  | HRetry s' evs => adv c s s' evs /\ (fixed = true -> (unarmed c s' + n_rearms evs <= unarmed c s)%nat)
   | HDone r evs => evs = [] /\ (r = RError -> spent c (bo_total s) (bo_excl s))
   end.
 
-Lemma wb_bo once c k s0 r0 s : aux s0 = aux s -> (r0 = RError \/ exists i, r0 = RRegionErr i) ->
-  hres_bo once c s (with_backoff c k s0 r0).
+Lemma wb_bo fixed c k s0 r0 s : aux s0 = aux s -> (r0 = RError \/ exists i, r0 = RRegionErr i) ->
+  hres_bo fixed c s (with_backoff c k s0 r0).
 Proof.
   unfold aux. intros H R; injection H as V T E. pose proof (with_backoff_bo c k s0 r0) as W.
   destruct (with_backoff c k s0 r0) as [s' evs|r evs]; unfold hres_bo.
@@ -168,49 +168,53 @@ Proof.
   - destruct W as (-> & -> & W). split; auto. intros _. rewrite T, E in W. now exists k.
 Qed.
 
-Lemma retry_bo once c s s' : aux s' = aux s -> hres_bo once c s (HRetry s' []).
+Lemma retry_bo fixed c s s' : aux s' = aux s -> hres_bo fixed c s (HRetry s' []).
 Proof. intros H. split; [now apply adv_nil|]. unfold unarmed, aux in *. injection H as -> _ _. cbn. lia. Qed.
 
-Lemma handle_bo once c s t o i : hres_bo once c s (handle once c s t o i).
+Lemma hint_bo fixed c s t k lim : (fixed = true -> lim = Some (length (c_reps c) - 1)%nat) ->
+  hres_bo fixed c s (on_not_leader_hint lim s t k).
 Proof.
-  destruct o; cbn [handle]; unfold on_send_fail, on_busy; cbv zeta;
+  intros HL. unfold on_not_leader_hint. cbv zeta.
+  set (s1 := upd_rep t (set_f_notleader true) s).
+  destruct (length (reps s1) <=? k)%nat; [apply retry_bo; reflexivity|].
+  destruct (negb _); [apply retry_bo; reflexivity|].
+  set (w := exhausted (rep_at s1 k) max_replica_attempt && match lim with Some m => (nth k (rearmed_v s1) m <? m)%nat | None => true end).
+  match goal with |- hres_bo _ _ _ (HRetry ?x ?e) => set (s4 := x) end.
+  assert (T4 : bo_total s4 = bo_total s /\ bo_excl s4 = bo_excl s /\
+               rearmed_v s4 = (match lim with Some _ => if w then upd k S (rearmed_v s) else rearmed_v s | None => rearmed_v s end)).
+  { subst s4. destruct (leader_candidate _); destruct lim; try destruct w; auto. }
+  destruct T4 as (T4 & E4 & V4). split.
+  - unfold adv. rewrite T4, E4. destruct w; cbn; repeat split; lia.
+  - intros F. pose proof (HL F) as HF. subst lim. unfold unarmed. rewrite V4.
+    destruct w eqn:W; unfold n_rearms; cbn [filter is_rearm length]; [|lia].
+    subst w. apply andb_prop in W as [_ W]. apply Nat.ltb_lt in W. change (rearmed_v s1) with (rearmed_v s) in W.
+    pose proof (slack_upd _ k (rearmed_v s) W). lia.
+Qed.
+
+Lemma handle_bo fixed c s t o i : hres_bo fixed c s (handle fixed c s t o i).
+Proof.
+  destruct o; cbn [handle]; try (apply hint_bo; intros ->; reflexivity); unfold on_send_fail, on_busy; cbv zeta;
     try (apply retry_bo; reflexivity); try (split; [reflexivity|discriminate]);
     try (apply wb_bo; [reflexivity|eauto]).
   all: ifs; try (apply retry_bo; reflexivity); try (split; [reflexivity|discriminate]);
     try (apply wb_bo; [reflexivity|eauto]).
-  (* NotLeader with hint *)
-  unfold on_not_leader_hint. cbv zeta.
-  set (s1 := upd_rep t (set_f_notleader true) s).
-  destruct (length (reps s1) <=? k)%nat; [apply retry_bo; reflexivity|].
-  destruct (negb _); [apply retry_bo; reflexivity|].
-  set (w := exhausted (rep_at s1 k) max_replica_attempt && (negb once || negb (nth k (rearmed_v s1) true))).
-  match goal with |- hres_bo _ _ _ (HRetry ?x ?e) => set (s4 := x) end.
-  assert (T4 : bo_total s4 = bo_total s /\ bo_excl s4 = bo_excl s /\
-               rearmed_v s4 = (if w && once then upd k (fun _ => true) (rearmed_v s) else rearmed_v s)).
-  { subst s4. destruct (leader_candidate _); destruct (w && once); auto. }
-  destruct T4 as (T4 & E4 & V4). split.
-  - unfold adv. rewrite T4, E4. destruct w; cbn; repeat split; lia.
-  - intros ->. unfold unarmed. rewrite V4. rewrite andb_true_r.
-    destruct w eqn:W; unfold n_rearms; cbn [filter is_rearm length]; [|lia].
-    subst w. apply andb_prop in W as [_ W]. cbn in W. apply negb_true_iff in W.
-    pose proof (unarmed_upd k (rearmed_v s) W). lia.
 Qed.
 
-Lemma pre_bo once c s prev i : hres_bo once c s (pre once c s prev i).
+Lemma pre_bo fixed c s prev i : hres_bo fixed c s (pre fixed c s prev i).
 Proof. unfold pre. destruct prev as [[t o]|]; [apply handle_bo|apply retry_bo; reflexivity]. Qed.
 
 Lemma after_send_aux s t : aux (after_send s t) = aux s.
 Proof. unfold after_send. destruct (rt_eqb _ _); reflexivity. Qed.
 
-Definition loop_ok (once : bool) (c : cfg) (s : state) (x : list event * result) : Prop :=
+Definition loop_ok (fixed : bool) (c : cfg) (s : state) (x : list event * result) : Prop :=
   bo_ok c (bo_total s) (bo_excl s) (fst x) /\
   (snd x = RError -> spent c (bo_total s + tot (fst x)) (bo_excl s + exc (fst x))) /\
-  (once = true -> (n_rearms (fst x) <= unarmed s)%nat).
+  (fixed = true -> (n_rearms (fst x) <= unarmed c s)%nat).
 
-Lemma loop_bo once c script : forall s prev i, loop_ok once c s (loop_gen once c script s prev i).
+Lemma loop_bo fixed c script : forall s prev i, loop_ok fixed c s (loop_gen fixed c script s prev i).
 Proof.
   induction script as [|o rest IH]; intros s prev i; rewrite loop_unfold;
-    pose proof (pre_bo once c s prev i) as P; destruct (pre once c s prev i) as [s1 evs1|r evs1].
+    pose proof (pre_bo fixed c s prev i) as P; destruct (pre fixed c s prev i) as [s1 evs1|r evs1].
   2,4: (destruct P as [-> P]; unfold loop_ok; cbn [fst snd tot exc bo_ok n_rearms filter length]; rewrite !N.add_0_r;
         repeat split; auto; intros; lia).
   all: destruct P as ((T1 & E1 & OK1) & U1); cbv zeta;
@@ -227,8 +231,8 @@ Proof.
   (* an attempt is sent *)
   all: destruct Q as ((T2 & E2 & OK2) & V2); destruct Q0 as (_ & _ & R2);
     rewrite T1', E1', T1, E1 in *;
-    assert (BASE : forall evs r, loop_ok once c (after_send s2 t) (evs, r) ->
-              loop_ok once c s (evs1 ++ evs2 ++ EAtt t (q_rr s2) (q_stale s2) (q_retry s2) :: evs, r)).
+    assert (BASE : forall evs r, loop_ok fixed c (after_send s2 t) (evs, r) ->
+              loop_ok fixed c s (evs1 ++ evs2 ++ EAtt t (q_rr s2) (q_stale s2) (q_retry s2) :: evs, r)).
   1,3: (intros evs r (L1 & L2 & L3); cbn [fst snd] in *; pose proof (after_send_aux s2 t) as A3; unfold aux in A3; injection A3 as V3 T3 E3;
         rewrite T3, E3, T2, E2 in *; unfold loop_ok; cbn [fst snd];
         rewrite !tot_app, !exc_app, !n_rearms_app, R2; cbn [tot exc];
@@ -237,11 +241,11 @@ Proof.
         | intros R; specialize (L2 R); rewrite ?N.add_assoc in *; exact L2
         | intros O; specialize (U1 O); specialize (L3 O); unfold unarmed in *; rewrite V3, V2, V1 in L3; rewrite n_rearms_cons_att; lia ]).
   - apply (BASE [] (RSuccess i)). unfold loop_ok. cbn. repeat split; auto; try discriminate; intros; lia.
-  - assert (SUCC : loop_ok once c s (evs1 ++ evs2 ++ [EAtt t (q_rr s2) (q_stale s2) (q_retry s2)], RSuccess i))
+  - assert (SUCC : loop_ok fixed c s (evs1 ++ evs2 ++ [EAtt t (q_rr s2) (q_stale s2) (q_retry s2)], RSuccess i))
       by (apply (BASE [] (RSuccess i)); unfold loop_ok; cbn; repeat split; auto; try discriminate; intros; lia).
     specialize (IH (after_send s2 t) (Some (t, o)) (S i)).
     destruct o; try exact SUCC;
-      (destruct (loop_gen once c rest (after_send s2 t) _ (S i)) as [evs r]; apply BASE; exact IH).
+      (destruct (loop_gen fixed c rest (after_send s2 t) _ (S i)) as [evs r]; apply BASE; exact IH).
 Qed.
 
 (* ---- pure consequences of [bo_ok]: how many back-offs a budget admits ---- *)
@@ -280,11 +284,13 @@ Proof.
 Qed.
 
 (* ---- run level ---- *)
-Lemma unarmed_init c rands sleeps : unarmed (init_state c rands sleeps) = length (c_reps c).
-Proof. unfold unarmed, init_state. cbn [rearmed_v]. induction (c_reps c); cbn; auto. Qed.
+Lemma slack_zeros {A} L (l : list A) : slack L (map (fun _ => 0%nat) l) = (length l * L)%nat.
+Proof. induction l; cbn [map slack length]; lia. Qed.
+Lemma unarmed_init c rands sleeps : unarmed c (init_state c rands sleeps) = (length (c_reps c) * (length (c_reps c) - 1))%nat.
+Proof. unfold unarmed, init_state. cbn [rearmed_v]. apply slack_zeros. Qed.
 
-Lemma run_ok once c script rands sleeps :
-  c_read c && negb (c_val c) = false -> loop_ok once c (init_state c rands sleeps) (run_gen once c script rands sleeps).
+Lemma run_ok fixed c script rands sleeps :
+  c_read c && negb (c_val c) = false -> loop_ok fixed c (init_state c rands sleeps) (run_gen fixed c script rands sleeps).
 Proof. intros V. unfold run_gen. rewrite V. apply loop_bo. Qed.
 
 Lemma spent_explicit c T E : spent c T E ->
@@ -295,28 +301,28 @@ Proof.
   apply andb_prop in R2 as [R2 R3]. apply andb_prop in R2 as [_ R2]. split; now apply N.leb_le.
 Qed.
 
-Lemma run_error once c script rands sleeps evs : run_gen once c script rands sleeps = (evs, RError) ->
+Lemma run_error fixed c script rands sleeps evs : run_gen fixed c script rands sleeps = (evs, RError) ->
   (c_read c = true /\ c_val c = false) \/
   (0 < c_max_sleep c /\ (c_max_sleep c <= tot evs - exc evs \/ (excl_limit <= exc evs /\ c_max_sleep c <= exc evs))).
 Proof.
   intros H. destruct (c_read c && negb (c_val c)) eqn:V.
   - left. apply andb_prop in V as [V1 V2]. apply negb_true_iff in V2. auto.
-  - right. pose proof (run_ok once c script rands sleeps V) as (_ & L & _). rewrite H in L. cbn [fst snd] in L.
+  - right. pose proof (run_ok fixed c script rands sleeps V) as (_ & L & _). rewrite H in L. cbn [fst snd] in L.
     specialize (L eq_refl). apply spent_explicit in L. exact L.
 Qed.
 
-Lemma run_backoffs once c script rands sleeps : 0 < c_max_sleep c ->
-  2 * n_plain (fst (run_gen once c script rands sleeps)) <= c_max_sleep c + 1 /\
-  1000 * n_excl (fst (run_gen once c script rands sleeps)) <= N.max excl_limit (c_max_sleep c) + 999.
+Lemma run_backoffs fixed c script rands sleeps : 0 < c_max_sleep c ->
+  2 * n_plain (fst (run_gen fixed c script rands sleeps)) <= c_max_sleep c + 1 /\
+  1000 * n_excl (fst (run_gen fixed c script rands sleeps)) <= N.max excl_limit (c_max_sleep c) + 999.
 Proof.
   intros M. destruct (c_read c && negb (c_val c)) eqn:V.
   - unfold run_gen. rewrite V. cbn. lia.
-  - pose proof (run_ok once c script rands sleeps V) as (L & _ & _). cbn [init_state bo_total bo_excl] in L.
+  - pose proof (run_ok fixed c script rands sleeps V) as (L & _ & _). cbn [init_state bo_total bo_excl] in L.
     pose proof (bo_ok_plain c _ M 0 0 ltac:(lia) L). pose proof (bo_ok_excl c _ M 0 0 L). lia.
 Qed.
 
-Lemma run_rearms_once c script rands sleeps :
-  (n_rearms (fst (run_gen true c script rands sleeps)) <= length (c_reps c))%nat.
+Lemma run_rearms_fixed c script rands sleeps :
+  (n_rearms (fst (run_gen true c script rands sleeps)) <= length (c_reps c) * (length (c_reps c) - 1))%nat.
 Proof.
   destruct (c_read c && negb (c_val c)) eqn:V.
   - unfold run_gen. rewrite V. cbn. lia.
